@@ -74,6 +74,10 @@ def structures(tier):
             sts.append({'kind': 'process', 'nmap': nmap, 'upd': s})
     for nmap in (0, 1, 2):
         sts.append({'kind': 'process-kevents', 'nmap': nmap})
+    for nmap, empty in ((1, 0), (2, 0), (2, 1)):
+        sts.append({'kind': 'process-kevents', 'nmap': nmap, 'empty': empty})
+        sts.append({'kind': 'process', 'nmap': nmap, 'upd': [], 'empty': empty})
+        sts.append({'kind': 'process', 'nmap': nmap, 'upd': ['TP'], 'empty': empty})
     return sts
 
 
@@ -311,12 +315,13 @@ def _updates(ctx, st):
     return recs, meta, ts
 
 
-def _thread_map(ctx, n):
+def _thread_map(ctx, n, empty=None):
+    """empty: index of the entry whose 20-byte command name is all zero (a declared thread of a nameless process)"""
     th = []
     for i in range(n):
         t = ctx.int('mt%d' % i)
         ctx.assume(And(t >= 10000, t <= 65535))
-        th.append((t, _pid(ctx, 'mp%d' % i), [b'procA', b'kernel_task'][i]))
+        th.append((t, _pid(ctx, 'mp%d' % i), b'' if i == empty else [b'procA', b'kernel_task'][i]))
     return th
 
 
@@ -334,7 +339,7 @@ def _expected_process(ctx, decl, tid, width):
 
 def run_process(ctx, st):
     by_id, by_name = sweep.codes()
-    threads = _thread_map(ctx, st['nmap'])
+    threads = _thread_map(ctx, st['nmap'], st.get('empty'))
     recs, meta, ts = _updates(ctx, st)
     # trigger: getpid window on TID
     recs.append(K.pack_rec(ts, [0, 0, 0, 0], TID, by_name['BSC_getpid'] | 1))
@@ -401,7 +406,7 @@ def _prefix(lp, ep):
 
 def run_process_kevents(ctx, st):
     by_id, by_name = sweep.codes()
-    threads = _thread_map(ctx, st['nmap'])
+    threads = _thread_map(ctx, st['nmap'], st.get('empty'))
     w = [ctx.int('u%d' % j) for j in range(4)]
     ctx.assume(And(w[0] >= 10000, w[0] <= 65535, w[1] >= 100, w[1] <= 999))
     recs = [K.pack_rec(10 ** 12 + 5, w, TID, by_name['TRACE_DATA_NEWTHREAD']),
